@@ -100,10 +100,25 @@ func c38Run(e *Env, p *c38Plan) {
 				var err error
 				d := time.Duration(c.TimeoutMs) * time.Millisecond
 				switch c.API {
-				case "deadline":
-					err = pc.DoDeadline(req, resp, time.Now().Add(d))
-				case "timeout":
-					err = pc.DoTimeout(req, resp, d)
+				case "deadline", "timeout":
+					// the call runs in a task of its own: one that is still out long after its
+					// deadline is reported at once (waiting for it would only end at the run's
+					// step limit, as "unfinished" instead of as the violation it is)
+					done := make(chan error, 1)
+					api := c.API
+					Go("pl-call", func() {
+						if api == "deadline" {
+							done <- pc.DoDeadline(req, resp, time.Now().Add(d))
+						} else {
+							done <- pc.DoTimeout(req, resp, d)
+						}
+					})
+					select {
+					case err = <-done:
+					case <-time.After(d + holdBudget + 30*time.Second):
+						e.Violation("late-return/never", "%s(%v) for %s had not returned %v after its deadline", c.API, d, c.ID, holdBudget+30*time.Second)
+						return
+					}
 				default:
 					done := make(chan error, 1)
 					Go("pl-do", func() { done <- pc.Do(req, resp) })
